@@ -96,6 +96,14 @@ structure Pop (R : Type) where
 
 def Pop.ids (p : Pop R) : List Nat := p.cells.map (·.id)
 
+/-- `solver::solver`: the cells get the ids `k, k+1, …` in list order … -/
+def renumber (fn : Fn R) : List (Cell R) → Nat → List (Cell R)
+  | [], _ => []
+  | c :: cs, k => solverInit fn { c with id := k } :: renumber fn cs (k + 1)
+
+/-- … starting from 0, the counter ends at the number of cells; every cell gets its initial pressure -/
+def initPop (fn : Fn R) (cs : List (Cell R)) : Pop R := { cells := renumber fn cs 0, nextId := cs.length }
+
 /-- what an iteration takes from outside the cell cycle: the volumes the meshes enclose, which
     divisions succeed, what the daughters look like, whether the integrator is in a temporary step -/
 structure Event (R : Type) where
